@@ -51,6 +51,13 @@ pub fn gen_c04(rng: &mut Prng, plan: &mut Plan) {
     plan.steps = steps;
 }
 
+/// `c17h`: the C04 history plans (same generator, hence the same vocabulary incl. arrivals and documented failures),
+/// judged by the serde oracle only.
+#[cfg(feature = "opt")]
+pub fn exec_c17h(plan: &Plan) -> RunResult {
+    run_history(plan, Opts { c17: true, cover: Cover::C17, ..Default::default() })
+}
+
 pub fn exec_c04(plan: &Plan) -> RunResult {
     run_history(
         plan,
@@ -61,6 +68,7 @@ pub fn exec_c04(plan: &Plan) -> RunResult {
             protect_borrowed: false,
             cover: Cover::C04,
             keep_unwound: false,
+            c17: false,
         },
     )
 }
